@@ -179,7 +179,7 @@ fn main() {
             let path = args.get(2).expect("file");
             let opts = args.get(3).cloned().unwrap_or_else(|| "{}".into());
             let src = std::fs::read_to_string(path).expect("read");
-            let t = PlanTask { name: path.clone(), opt_name: "cli".into(), src, ts: path.ends_with(".tsx"), options: opts, comments: !flag(&args, "--no-comments"), crash_at: None, emitter_crash_at: None, noise: Default::default() };
+            let t = PlanTask { name: path.clone(), opt_name: "cli".into(), src, ts: path.ends_with(".tsx"), options: opts, comments: !flag(&args, "--no-comments"), script: flag(&args, "--script"), crash_at: None, emitter_crash_at: None, noise: Default::default() };
             let r = oracle::References::new(7, Duration::from_secs(60)).get(&t);
             match &r.outcome {
                 sched::Outcome::Returned(o) => {
